@@ -446,3 +446,11 @@ Proof.
     + intros; apply tight_cubo_multi_l; assumption.
     + apply tight_klpq_multi_l; assumption.
 Qed.
+
+Lemma exact_gamma_exponential_l a b lga lgan xs zs :
+  zs <> [] ->
+  all_exact (ge_logml NumR a b lga lgan xs)
+            (map (ge_lp NumR a b lga xs) zs) (map (ge_lq NumR a b lgan xs) zs).
+Proof.
+  revert zs. exact (proj1 (exact_at_posterior_l _ _ _ (bayes_constant_ge_l a b lga lgan xs))).
+Qed.
